@@ -101,6 +101,53 @@ class C06(EngineProp):
     QUICK_N = 400
     THOROUGH_N = 20000
 
+    def classify(self, case, obs):
+        """known: a timed Hold / Pause that survives Stop's cancel pass (its second cancellation raises in tracking and the
+        clean-up is skipped) runs once more after Stop has finished and sets System State back from Stopped. Every failing
+        clause must lie in such a window: it opens at the view of a run stop whose previous view had Stop registered together
+        with a Hold or Pause, shows a System State other than Stopped while no run is started, and lasts until a run starts"""
+        views, ops = obs["views"], case["ops"]
+
+        def state_ok(v):
+            st, pa, ho = v["flags"][0], v["flags"][1], v["flags"][2]
+            return {"Stopped": not st, "Restarting": st and "Restart" in v["reg"], "Paused": st and pa,
+                    "Holding": st and not pa and ho, "Running": st and not pa and not ho}.get(v["sys"], False)
+
+        def valid_in(v, n):
+            idle = v["sys"] in ("Stopped", "Restarting")
+            return {"Start": v["sys"] == "Stopped", "Stop": not idle, "Restart": not idle, "Pause": not idle and not v["flags"][1],
+                    "Unpause": not idle and v["flags"][1], "Hold": not idle and not v["flags"][2],
+                    "Unhold": not idle and v["flags"][2]}.get(n, True)
+        window = [False] * len(views)
+        inside = False
+        for k, v in enumerate(views):
+            if inside and v["flags"][0]:
+                inside = False
+            if not inside and k > 0 and any(e[0] == "runstop" for e in v["events"]) and not v["flags"][0] and v["sys"] != "Stopped":
+                reg = views[k - 1]["reg"]
+                if "Stop" in reg and ("Hold" in reg or "Pause" in reg):
+                    inside = True
+            window[k] = inside
+        seen = False
+        ids_seen, prev_run = 0, None
+        for k, v in enumerate(views):      # fresh run ids: not part of this finding
+            if v["run"] is not None and v["run"] != prev_run:
+                if v["run"] != ids_seen:
+                    return None
+                ids_seen += 1
+            prev_run = v["run"]
+        for k, v in enumerate(views):
+            bad = not state_ok(v) or ((v["run"] is not None) != bool(v["flags"][0]))
+            if ops[k][0] == "user" and k > 0 and bool(v["flags"][6]) != bool(valid_in(views[k - 1], ops[k][1])):
+                bad = bad or True
+                if not (window[k] or window[k - 1]):
+                    return None
+            if bad:
+                if not (window[k] or (k > 0 and window[k - 1])):
+                    return None
+                seen = True
+        return "C06-hold-surviving-stop-resets-system-state" if seen else None
+
     def nontrivial(self, case, obs):
         return len({v["sys"] for v in obs["views"]}) >= 3
 
